@@ -8,7 +8,9 @@ package fnode
 import (
 	"bytes"
 	"context"
+	"encoding/binary"
 	"fmt"
+	"os"
 	"sort"
 	"strings"
 	"time"
@@ -17,7 +19,6 @@ import (
 
 	"verifharness/bm"
 	"verifharness/hx"
-	"verifharness/streams/retr"
 
 	"github.com/evstack/ev-node/block"
 	"github.com/evstack/ev-node/types"
@@ -61,6 +62,25 @@ type World struct {
 	lastH       uint64
 	advPriv     crypto.PrivKey
 	advPub      crypto.PubKey
+	prop        string          // FNODE_PROP: report only the findings of this property ("" = all)
+	lastInc     uint64          // DA-included height after the previous op
+	fromInc     uint64          // ... when the last run / start began
+	startInc    uint64          // ... at the last (re)start
+	obsH        map[uint64]bool // ghost: the header of block k was in a DA height this node fetched successfully
+	obsD        map[uint64]bool
+	obsAt       map[string]map[uint64]bool // "h:<k>" / "d:<k>" -> DA heights at which it was observed
+}
+
+// report files a finding unless the check that runs the stream is about another property (FNODE is run by C02, C05
+// and C07; known findings are listed per property)
+func (w *World) report(sig, what string) {
+	if w.prop != "" {
+		c07 := strings.HasPrefix(sig, "C07/")
+		if (w.prop == "C07") != c07 && !strings.Contains(sig, "/harness/") && !strings.HasPrefix(sig, "C13/") {
+			return
+		}
+	}
+	w.c.Report(sig, what)
 }
 
 // rep reports a violation; after a crash every finding is attributed to the crash point.
@@ -69,7 +89,7 @@ func (w *World) rep(sig, what string) {
 		i := strings.Index(sig, "/")
 		sig = "C05/after-crash/" + w.cause + sig[i:]
 	}
-	w.c.Report(sig, what)
+	w.report(sig, what)
 }
 
 func kindOf(d string) string {
@@ -323,8 +343,78 @@ func (w *World) observe() string {
 	if err == nil {
 		disk = bm.ShowState(st)
 	}
-	return fmt.Sprintf("height=%d cursor=%d disk=%s mem=%s alive=%d w=%s blocks=%s head=[%s]",
-		h, e.M.VerifDAHeight(), disk, bm.ShowState(e.M.GetLastState()), alive, bm.DescribeWrites(e.DS, w.from), w.blocks(), w.showHead(h))
+	return fmt.Sprintf("height=%d cursor=%d disk=%s mem=%s alive=%d w=%s blocks=%s head=[%s] %s",
+		h, e.M.VerifDAHeight(), disk, bm.ShowState(e.M.GetLastState()), alive, bm.DescribeWrites(e.DS, w.from), w.blocks(), w.showHead(h), w.showInc())
+}
+
+func (w *World) meta(k string) uint64 {
+	b, err := w.full.Store.GetMetadata(context.Background(), k)
+	if err != nil || len(b) != 8 {
+		return 0
+	}
+	return binary.LittleEndian.Uint64(b)
+}
+
+// showInc: DA-included height (memory / persisted), SetFinal calls since the last start, recorded DA heights
+func (w *World) showInc() string {
+	e := w.full
+	inc := e.M.GetDAIncludedHeight()
+	var fs, rhb []string
+	for _, f := range e.Exec.Finals {
+		fs = append(fs, fmt.Sprint(f))
+	}
+	for k := w.ih; k <= inc; k++ {
+		rhb = append(rhb, fmt.Sprintf("%d:%d:%d", k, w.meta(fmt.Sprintf("rhb/%d/h", k)), w.meta(fmt.Sprintf("rhb/%d/d", k))))
+	}
+	j := func(l []string) string {
+		if len(l) == 0 {
+			return "-"
+		}
+		return strings.Join(l, ",")
+	}
+	return fmt.Sprintf("dainc=%d/%d fin=%s rhb=%s", inc, w.meta("d"), j(fs), j(rhb))
+}
+
+// runIncluder lets the REAL, unmodified DAIncluderLoop goroutine run until it cannot advance: it is started only
+// now (both other loops are quiescent, so its writes follow theirs), then three signals are queued one after the
+// other; the channel holds one signal, so the third one fits only when the second has been taken, i.e. when a
+// pass that began after quiescence has finished.
+func (w *World) runIncluder() {
+	m := w.full.M
+	ctx, cancel := context.WithCancel(context.Background())
+	errCh := make(chan error, 4)
+	done := make(chan struct{})
+	go func() { defer close(done); m.DAIncluderLoop(ctx, errCh) }()
+	deadline := time.Now().Add(20 * time.Second)
+	ok := true
+	for i := 0; i < 3 && ok; i++ {
+		for !m.VerifDAIncluderSignal() {
+			select {
+			case <-done:
+				ok = false
+			default:
+			}
+			if !ok || time.Now().After(deadline) {
+				ok = false
+				break
+			}
+			time.Sleep(20 * time.Microsecond)
+		}
+	}
+	if !ok {
+		select {
+		case err := <-errCh:
+			w.report("C07/includer-error", err.Error())
+		default:
+			w.report("C07/harness/includer-timeout", "DAIncluderLoop did not take the signals within 20 s")
+		}
+	}
+	cancel()
+	select {
+	case <-done:
+	case <-time.After(5 * time.Second):
+		w.report("C13/stop/da-includer-loop-did-not-return", "DAIncluderLoop still running 5 s after cancel")
+	}
 }
 
 func (w *World) startFull(img map[string][]byte, root string, kind string) string {
@@ -351,6 +441,18 @@ func (w *World) startFull(img map[string][]byte, root string, kind string) strin
 	}
 	w.startLoops()
 	return "start " + w.observe()
+}
+
+// afterStart: the DA-included height across a (re)start
+func (w *World) afterStart(verb string, floor uint64) {
+	inc := w.full.M.GetDAIncludedHeight()
+	if inc < floor {
+		w.report("C07/da-included/decreased-across-restart", fmt.Sprintf("%d -> %d after %s", floor, inc, verb))
+	}
+	if inc > w.full.Height() {
+		w.report("C07/da-included/above-chain-height", fmt.Sprintf("%d > %d after %s", inc, w.full.Height(), verb))
+	}
+	w.lastInc, w.fromInc, w.startInc = inc, inc, inc
 }
 
 func (w *World) cleanup() {
@@ -465,6 +567,25 @@ func (w *World) item(tok string) (blob []byte, ident string, genuine *part, ok b
 	return nil, "", nil, false
 }
 
+// oracles computes, with the real crypto, what the model takes as parameters of a blob (all keys here are Ed25519)
+func oracles(b []byte) (keyok, hsig, dsig bool) {
+	var sh types.SignedHeader
+	if err := sh.UnmarshalBinary(b); err == nil && sh.Signer.PubKey != nil {
+		keyok = true
+		if pl, err := sh.Header.MarshalBinary(); err == nil {
+			hsig, _ = sh.Signer.PubKey.Verify(pl, sh.Signature)
+		}
+	}
+	var sd types.SignedData
+	if err := sd.UnmarshalBinary(b); err == nil && sd.Signer.PubKey != nil {
+		keyok = true
+		if pl, err := sd.Data.MarshalBinary(); err == nil {
+			dsig, _ = sd.Signer.PubKey.Verify(pl, sd.Signature)
+		}
+	}
+	return
+}
+
 func b01(b bool) string {
 	if b {
 		return "1"
@@ -473,7 +594,7 @@ func b01(b bool) string {
 }
 
 func Run(c *hx.Ctx) {
-	w := &World{c: c}
+	w := &World{c: c, prop: os.Getenv("FNODE_PROP")}
 	w.advPriv, w.advPub = bm.DetKey(2)
 	defer w.cleanup()
 	for {
@@ -490,6 +611,7 @@ func Run(c *hx.Ctx) {
 			w.gt = time.Unix(0, o.I64("gt"))
 			w.da = hx.NewDA()
 			w.parts, w.cause, w.lastH = nil, "", 0
+			w.obsH, w.obsD, w.obsAt = map[uint64]bool{}, map[uint64]bool{}, map[string]map[uint64]bool{}
 			p, err := bm.New(bm.Options{InitialHeight: w.ih, GenesisTime: w.gt, Aggregator: true})
 			if err != nil {
 				c.Emit("reset err")
@@ -499,6 +621,8 @@ func Run(c *hx.Ctx) {
 			c.Emit("%s", w.startFull(nil, "", "fresh"))
 			if !w.dead {
 				w.lastH = w.full.Height()
+				w.lastInc = w.full.M.GetDAIncludedHeight()
+				w.fromInc, w.startInc = w.lastInc, w.lastInc
 			}
 		case "produce":
 			if w.prod == nil {
@@ -527,7 +651,7 @@ func Run(c *hx.Ctx) {
 						shown = append(shown, tok+":none")
 						continue
 					}
-					k, hs, ds, _ := retr.Oracles(b)
+					k, hs, ds := oracles(b)
 					shown = append(shown, fmt.Sprintf("%s:%s:%s%s%s", tok, ident, b01(k), b01(hs), b01(ds)))
 					w.da.Place(da, b)
 					if g != nil {
@@ -592,14 +716,47 @@ func Run(c *hx.Ctx) {
 			}
 			w.from = w.full.DS.NumWrites()
 			w.fromH = w.full.Height()
+			w.fromInc = w.full.M.GetDAIncludedHeight()
 			w.full.M.VerifRetrieveSignal()
 			log := w.waitScan()
 			if !w.settle() {
 				w.dead = true
 				w.rep("C02/loop-terminated", "SyncLoop returned while syncing from the DA layer")
 			}
+			w.noteObserved(log)
+			w.runIncluder()
 			c.Emit("run %s", w.observe())
 			w.monitorRun(log)
+			w.monitorInclusion(true)
+		case "p2p":
+			// parts of the proposer's chain handed over by the P2P store loops (events carry the current DA cursor)
+			if w.full == nil || w.full.M == nil || w.dead || w.prod == nil {
+				c.Emit("dead")
+				continue
+			}
+			w.from = w.full.DS.NumWrites()
+			w.fromH = w.full.Height()
+			w.fromInc = w.full.M.GetDAIncludedHeight()
+			var shown []string
+			if s := o.Str("items"); s != "" && s != "-" {
+				for _, tok := range strings.Split(s, ",") {
+					if !w.p2p(tok) {
+						shown = append(shown, tok+":none")
+					} else {
+						shown = append(shown, tok)
+					}
+				}
+			}
+			if !w.dead {
+				w.runIncluder()
+			}
+			sh := "-"
+			if len(shown) > 0 {
+				sh = strings.Join(shown, ",")
+			}
+			c.Emit("p2p %s %s", sh, w.observe())
+			w.monitorP2P()
+			w.monitorInclusion(false)
 		case "restart", "crash", "stopheld":
 			if w.full == nil || w.full.M == nil || w.dead {
 				c.Emit("dead")
@@ -613,6 +770,10 @@ func Run(c *hx.Ctx) {
 			}
 			w.stopLoops()
 			before := w.full.Height()
+			incFloor := w.fromInc // a crash image holds every write made before the run that was cut
+			if o.Verb != "crash" {
+				incFloor = w.full.M.GetDAIncludedHeight()
+			}
 			n := w.full.DS.NumWrites()
 			keep := n
 			root := ""
@@ -620,7 +781,7 @@ func Run(c *hx.Ctx) {
 			if o.Verb != "crash" {
 				root = w.full.Root
 				if err := w.full.M.SaveCache(); err != nil {
-					c.Report("C02/save-cache-fails", err.Error())
+					w.report("C02/save-cache-fails", err.Error())
 				}
 			} else {
 				kind = "crash"
@@ -653,15 +814,17 @@ func Run(c *hx.Ctx) {
 			}
 			w.lastH = w.full.Height()
 			w.monitorStore(o.Verb)
+			w.afterStart(o.Verb, incFloor)
 		case "show":
 			if w.full == nil || w.full.M == nil || w.dead {
 				c.Emit("dead")
 				continue
 			}
 			m := w.full.M
-			c.Emit("show height=%d cursor=%d hc=%s dc=%s seenH=%s seenD=%s", w.full.Height(), m.VerifDAHeight(),
+			c.Emit("show height=%d cursor=%d hc=%s dc=%s seenH=%s seenD=%s hm=%s dm=%s", w.full.Height(), m.VerifDAHeight(),
 				nums(m.HeaderCache().VerifItemHeights()), nums(m.DataCache().VerifItemHeights()),
-				shortList(m.HeaderCache().VerifSeen()), shortList(m.DataCache().VerifSeen()))
+				shortList(m.HeaderCache().VerifSeen()), shortList(m.DataCache().VerifSeen()),
+				marks(m.HeaderCache().VerifDAIncluded()), marks(m.DataCache().VerifDAIncluded()))
 		default:
 			c.Emit("bad-op")
 		}
@@ -677,6 +840,7 @@ func (w *World) held(hdrFirst bool, hold int) bool {
 	w.stopSync()
 	w.from = w.full.DS.NumWrites()
 	w.fromH = w.full.Height()
+	w.fromInc = m.GetDAIncludedHeight()
 	m.VerifRetrieveSignal()
 	log := w.waitScan()
 	w.noteNotFound(log)
@@ -714,10 +878,18 @@ func (w *World) held(hdrFirst bool, hold int) bool {
 		}
 		return w.settle()
 	}
+	ok := false
 	if hdrFirst {
-		return pushH() && pushD()
+		ok = pushH() && pushD()
+	} else {
+		ok = pushD() && pushH()
 	}
-	return pushD() && pushH()
+	if ok {
+		w.noteObserved(log)
+		w.runIncluder()
+		w.monitorInclusion(false)
+	}
+	return ok
 }
 
 // a height the DA layer answered "not found" for was passed without its blobs
@@ -736,7 +908,216 @@ func (w *World) noteNotFound(log []string) {
 	}
 }
 
+func marks(m map[string]uint64) string {
+	var out []string
+	for k, v := range m {
+		k = strings.ToLower(k)
+		if len(k) > 8 {
+			k = k[:8]
+		}
+		out = append(out, fmt.Sprintf("%s:%d", k, v))
+	}
+	sort.Strings(out)
+	if len(out) == 0 {
+		return "-"
+	}
+	return strings.Join(out, ",")
+}
+
+// p2p hands one genuine part to the sync loop the way the P2P store loops do and waits until it has been handled
+func (w *World) p2p(tok string) bool {
+	if len(tok) < 2 || (tok[0] != 'H' && tok[0] != 'D') {
+		return false
+	}
+	var k uint64
+	if _, err := fmt.Sscan(tok[1:], &k); err != nil || fmt.Sprint(k) != tok[1:] || k > w.prod.Height() {
+		return false
+	}
+	sh, d, err := w.prod.Store.GetBlockData(context.Background(), k)
+	if err != nil {
+		return false
+	}
+	if w.dead {
+		return true
+	}
+	m := w.full.M
+	cur := m.VerifDAHeight()
+	if tok[0] == 'H' {
+		m.VerifHeaderInCh() <- block.NewHeaderEvent{Header: sh, DAHeight: cur}
+	} else {
+		m.VerifDataInCh() <- block.NewDataEvent{Data: d, DAHeight: cur}
+	}
+	if !w.settle() {
+		w.dead = true
+		w.rep("C02/loop-terminated", "SyncLoop returned while handling "+tok+" from P2P")
+	}
+	return true
+}
+
+// noteObserved: which genuine parts were in a DA height this node fetched successfully in the pass just finished
+func (w *World) noteObserved(log []string) {
+	for _, l := range log {
+		p := strings.SplitN(l, ":", 3)
+		if p[0] != "ids" {
+			continue
+		}
+		var a uint64
+		fmt.Sscan(p[1], &a)
+		okFetch := p[2] == "ok" || (strings.HasPrefix(p[2], "errget") && len(w.da.Blobs[a]) == 0)
+		if !okFetch {
+			continue
+		}
+		for _, pt := range w.parts {
+			if pt.da != a {
+				continue
+			}
+			key := fmt.Sprintf("h:%d", pt.k)
+			if pt.data {
+				key = fmt.Sprintf("d:%d", pt.k)
+				w.obsD[pt.k] = true
+			} else {
+				w.obsH[pt.k] = true
+			}
+			if w.obsAt[key] == nil {
+				w.obsAt[key] = map[uint64]bool{}
+			}
+			w.obsAt[key][a] = true
+		}
+	}
+}
+
 // ---------------------------------------------------------------- monitors (independent of the model)
+
+// monitorP2P: what the node applied from P2P is the proposer's chain
+func (w *World) monitorP2P() {
+	h := w.full.Height()
+	if h < w.lastH {
+		w.rep("C02/height/decreased", fmt.Sprintf("%d -> %d", w.lastH, h))
+	}
+	w.lastH = h
+	w.monitorStore("p2p")
+}
+
+// monitorInclusion: the full-node clauses of C07.  The DA-included height never decreases, stays at or below the chain
+// height, is persisted, advances one height at a time with SetFinal called for exactly those heights in order; a
+// height is reported only after its header and (non-empty) data were OBSERVED on the DA layer by this node, the
+// recorded DA heights are heights where they were observed; and (eventually) once the node has scanned both parts
+// of every block up to h and has applied those blocks, it reports h.
+func (w *World) monitorInclusion(scanned bool) {
+	e := w.full
+	ctx := context.Background()
+	inc := e.M.GetDAIncludedHeight()
+	if inc < w.lastInc {
+		w.report("C07/da-included/decreased", fmt.Sprintf("%d -> %d", w.lastInc, inc))
+	}
+	if inc > e.Height() {
+		w.report("C07/da-included/above-chain-height", fmt.Sprintf("%d > %d", inc, e.Height()))
+	}
+	if inc != w.meta("d") && inc+1 != w.ih {
+		w.report("C07/da-included/not-persisted", fmt.Sprintf("mem %d disk %d", inc, w.meta("d")))
+	}
+	// finalize calls since the last start: consecutive, ending at the reported height
+	fin := e.Exec.Finals
+	exp := w.startInc
+	for _, f := range fin {
+		if f != exp+1 {
+			w.report("C07/finalize/out-of-order-or-gap", fmt.Sprintf("SetFinal(%d) after %d", f, exp))
+		}
+		exp = f
+	}
+	if exp != inc {
+		w.report("C07/finalize/does-not-match-reported-height", fmt.Sprintf("finalized up to %d, reported %d", exp, inc))
+	}
+	shared := func(k uint64, d *types.Data) string {
+		for j := w.ih; j <= w.prod.Height(); j++ {
+			if _, dj, err := w.prod.Store.GetBlockData(ctx, j); err == nil && j != k && len(dj.Txs) > 0 && bytes.Equal(dj.DACommitment(), d.DACommitment()) {
+				return "/commitment-shared-by-two-blocks"
+			}
+		}
+		return ""
+	}
+	for k := w.lastInc + 1; k <= inc; k++ {
+		if k < w.ih {
+			continue
+		}
+		_, d, err := e.Store.GetBlockData(ctx, k)
+		if err != nil {
+			w.report("C07/sound/block-missing", fmt.Sprintf("height %d", k))
+			continue
+		}
+		if !w.obsH[k] {
+			w.report("C07/sound/header-not-on-da", fmt.Sprintf("height %d reported DA-included, its header was never in a DA height this node fetched", k))
+		} else if !w.obsAt[fmt.Sprintf("h:%d", k)][w.meta(fmt.Sprintf("rhb/%d/h", k))] {
+			w.report("C07/recorded-da-height/header", fmt.Sprintf("height %d recorded %d", k, w.meta(fmt.Sprintf("rhb/%d/h", k))))
+		}
+		if len(d.Txs) > 0 {
+			sfx := shared(k, d)
+			if !w.obsD[k] {
+				w.report("C07/sound/data-not-on-da"+sfx, fmt.Sprintf("height %d reported DA-included, its data was never in a DA height this node fetched", k))
+			} else if !w.obsAt[fmt.Sprintf("d:%d", k)][w.meta(fmt.Sprintf("rhb/%d/d", k))] {
+				w.report("C07/recorded-da-height/data"+sfx, fmt.Sprintf("height %d recorded %d", k, w.meta(fmt.Sprintf("rhb/%d/d", k))))
+			}
+		} else if w.meta(fmt.Sprintf("rhb/%d/d", k)) != w.meta(fmt.Sprintf("rhb/%d/h", k)) {
+			w.report("C07/recorded-da-height/empty-block-data-differs-from-header", fmt.Sprintf("height %d", k))
+		}
+	}
+	w.lastInc = inc
+	if !scanned || w.dead {
+		return
+	}
+	// eventually
+	head := w.da.Height
+	for _, s := range w.da.Fetch {
+		if len(s) > 0 {
+			return
+		}
+	}
+	if e.M.VerifDAHeight() != head {
+		return
+	}
+	all := inc
+	first := inc + 1
+	if first < w.ih {
+		first = w.ih
+	}
+	for k := first; k <= e.Height(); k++ {
+		if len(w.visible(k, false, head)) == 0 || (!w.isEmptyBlock(k) && len(w.visible(k, true, head)) == 0) {
+			break
+		}
+		all = k
+	}
+	if inc >= all {
+		return
+	}
+	// classify
+	cause := "marks-present-includer-did-not-advance"
+	sh, d, err := e.Store.GetBlockData(ctx, inc+1)
+	hm, dm := e.M.HeaderCache().VerifDAIncluded(), e.M.DataCache().VerifDAIncluded()
+	reach := func(data bool) bool {
+		for _, a := range w.visible(inc+1, data, head) {
+			if a >= w.startCursor {
+				return true
+			}
+		}
+		return false
+	}
+	switch {
+	case err != nil:
+		cause = "block-missing"
+	case !reach(false) || (len(d.Txs) > 0 && !reach(true)):
+		cause = "resumed-scan-above-needed-blob"
+	default:
+		if _, ok := hm[sh.Hash().String()]; !ok {
+			cause = "header-blob-scanned-but-not-marked"
+		} else if _, ok := dm[d.DACommitment().String()]; !ok && len(d.Txs) > 0 {
+			cause = "data-blob-scanned-but-not-marked"
+		}
+	}
+	w.report("C07/eventually/full-node-observed-but-not-reported/"+cause,
+		fmt.Sprintf("the node is at height %d and has scanned the DA layer up to its head %d, which holds (from the DA start height %d on) both parts of every block up to %d, but it reports %d as DA-included (%s since the last start)",
+			e.Height(), head, w.dastart, all, inc, w.startKind))
+}
+
 
 func (w *World) isEmptyBlock(k uint64) bool {
 	_, d, err := w.prod.Store.GetBlockData(context.Background(), k)
@@ -794,16 +1175,16 @@ func (w *World) monitorRun(log []string) {
 	what := fmt.Sprintf("every part of the blocks up to %d is on the DA layer between the DA start height %d and the head %d, the scan reached the head without fetch faults, but the node is at %d (this process started its scan at DA height %d after %s)",
 		hstar, w.dastart, head, h, w.startCursor, w.startKind)
 	if strings.HasPrefix(cause, "C02/stall/") {
-		w.c.Report(cause, what)
+		w.report(cause, what)
 		return
 	}
 	switch w.startKind {
 	case "crash":
-		w.c.Report("C05/after-crash/da-only-not-converged/"+cause, what)
+		w.report("C05/after-crash/da-only-not-converged/"+cause, what)
 	case "restart":
-		w.c.Report("C02/converge/da-only-after-restart/"+cause, what)
+		w.report("C02/converge/da-only-after-restart/"+cause, what)
 	default:
-		w.c.Report("C02/converge/da-only/"+cause, what)
+		w.report("C02/converge/da-only/"+cause, what)
 	}
 }
 
